@@ -22,8 +22,9 @@ CASE_TIMEOUT_S = 30
 ENTRY = "cassis.cas.Cas.to_json / cassis.json.CasJsonSerializer.serialize / load_cas_from_json / CasJsonDeserializer.deserialize"
 RULE = (
     "Every case: a random type system (scen.gen_tspec: deep hierarchies, awkward feature names self/type/begin/end/id on "
-    "non-annotations, every primitive/array/list kind, FSArray with and without element type, TOP-ranged features, a "
-    "subtype of uima.cas.String; DocumentAnnotation extended in about half of the cases) and a well-formed CAS over it "
+    "non-annotations, every primitive/array/list kind, FSArray and, added here, FSList features with and without a "
+    "declared element type (user or built-in), TOP-ranged features, a subtype of uima.cas.String; DocumentAnnotation "
+    "extended in about half of the cases) and a well-formed CAS over it "
     "(scen.gen_cspec: 1-3 views with ASCII/BMP/astral/empty text, cycles, diamonds, shared and unshared collections, "
     "null elements, referenced-only structures, special floats, 8..64-bit limits) plus, added here, sofas that hold a "
     "URI or a byte array (with and without an id), a DocumentAnnotation instance, one id-less unindexed structure. "
@@ -223,6 +224,19 @@ def build(cassis, sc):
     return ts, cas, views, objs
 
 
+def list_element_types(r, tspec):
+    """scen.gen_tspec declares an element type only on FSArray features.  TypeSystem.create_feature documents elementType
+    for uima.cas.FSArray *and* uima.cas.FSList, and the JSON type section writes it differently for the two (array: inside
+    the range 'X[]'; any other range: the member %ELEMENT_TYPE), so about two thirds of the FSList-ranged features get one
+    here: a user type or a built-in one.  Drawn from a stream of its own: the rest of the scenario does not depend on it
+    (list elements are as little constrained by the element type as FSArray elements are)."""
+    user = [t["name"] for t in tspec if t["name"] != "a.MyStr"]
+    for t in tspec:
+        for f in t["feats"]:
+            if f["range"] == scen.FS_LIST and f.get("elem") is None and r.random() < 0.67:
+                f["elem"] = r.choice(user + user + [scen.ANNOTATION])
+
+
 def generate(rng, tier):
     n = {"quick": 3 * len(COMBOS), "thorough": 12 * len(COMBOS), "search": 20 * len(COMBOS)}[tier]
     for k in range(n):
@@ -240,6 +254,7 @@ def make_scenario(sub, k, big=False):
             if t["super"] == scen.ANNOTATION and not any(f["name"] == "language" for f in t["feats"]):
                 t["super"] = DA
                 break
+    list_element_types(random.Random(sub ^ 0x2E1E), tspec)
     cspec = scen.gen_cspec(r, cassis, tspec, n_objs=(1, 14 if big else 7), all_ids=True)
     da_feats = _extend(r, cassis, tspec, cspec)
     variant = dict(VARIANTS[(k // len(COMBOS) + k) % len(VARIANTS)], seed=r.randrange(1 << 30))
@@ -560,7 +575,7 @@ def signature(sc, msg):
 def distribution(scenarios, observations):
     modes, loads, sinks, variants = {}, {}, {}, {}
     feats = {"byte_array_sofa": 0, "uri_sofa": 0, "docann_extended": 0, "docann_instance": 0, "idless": 0, "multi_view": 0,
-             "astral_text": 0}
+             "astral_text": 0, "fslist_elem_declared": 0, "fslist_elem_declared_and_set": 0, "fsarray_elem_declared": 0}
     for sc in scenarios:
         cfg = sc["cfg"]
         modes[cfg["mode"]] = modes.get(cfg["mode"], 0) + 1
@@ -577,6 +592,10 @@ def distribution(scenarios, observations):
         feats["docann_instance"] += any(o["type"] == DA for o in sc["cspec"]["objs"])
         feats["idless"] += any(o["id"] is None for o in sc["cspec"]["objs"])
         feats["multi_view"] += len(vs) > 1
+        le = {scen.pyname(f["name"]) for t in sc["tspec"] for f in t["feats"] if f["range"] == scen.FS_LIST and f.get("elem")}
+        feats["fslist_elem_declared"] += bool(le)
+        feats["fslist_elem_declared_and_set"] += any(k in le for o in sc["cspec"]["objs"] for k in o["slots"])
+        feats["fsarray_elem_declared"] += any(f["range"] == scen.FS_ARRAY and f.get("elem") for t in sc["tspec"] for f in t["feats"])
         feats["astral_text"] += any(any(c > 0xFFFF for c in (v.get("text") or [])) for v in vs)
     n_loads = sum(len(o["loads"]) for o in observations if o)
     return {"cases": len(scenarios), "modes": modes, "load_arguments": loads, "sink_flags": sinks, "variants": variants,
